@@ -43,6 +43,7 @@ Checks(e) ==
          \cup Flag(e.res # "ok" \/ e.symmetric, "C19_dh_not_symmetric")
          \cup Flag(e.res # "ok" \/ (e.expect_fail => e.failed), "C19_dh_accepts_low_order_point")
          \cup Flag(e.res # "ok" \/ e.equiv, "C19_dh_point_not_reduced_or_masked_as_rfc7748_requires")
+         \cup Flag(e.res # "ok" \/ e.wrappers, "C19_key_type_methods_differ_from_the_primitive_functions")
     [] e.ev = "erase" ->
          Flag(e.released_dirty = 0, "C20_secret_bytes_not_erased_at_release")
          \cup Flag(e.not_released = 0, "C20_container_memory_not_released_or_moved")
